@@ -39,6 +39,7 @@ import (
 	"github.com/gauss-project/aurorafs/pkg/subscribe"
 	"github.com/gauss-project/aurorafs/pkg/traversal"
 
+	"verif/harness/internal/pbench"
 	"verif/harness/internal/vdb"
 )
 
@@ -49,7 +50,10 @@ type Options struct {
 	Capacity uint64 // localstore capacity in chunks (0: 1e6, collection out of reach)
 	Driver   string // shed driver name (default vdb.Name); vdb.CrashName with Path = fault name
 	Path     string
-	State    storage.StateStorer // reuse a state store (restart); nil: fresh in-memory leveldb
+	State    storage.StateStorer // reuse a state store (restart); nil: fresh one
+	// RealState: the fresh state store is the real in-memory leveldb state store (it reserves
+	// about 64 MiB); otherwise a map-backed store with the same encoding and ordered iteration.
+	RealState bool
 	LogTo    io.Writer
 }
 
@@ -93,9 +97,13 @@ func New(o Options) (*Node, error) {
 	var err error
 	n.State = o.State
 	if n.State == nil {
-		n.State, err = leveldb.NewInMemoryStateStore(logger)
-		if err != nil {
-			return nil, err
+		if o.RealState {
+			n.State, err = leveldb.NewInMemoryStateStore(logger)
+			if err != nil {
+				return nil, err
+			}
+		} else {
+			n.State = pbench.NewMemState()
 		}
 	}
 	n.Store, err = localstore.New(o.Path, o.Addr.Bytes(), &localstore.Options{Driver: o.Driver, Capacity: o.Capacity}, logger)
